@@ -194,6 +194,48 @@ mod verif_c04 {
         kani::cover!(true, "reach-end");
     }
 
+    /// Parser::finalise_compiler: a function body whose LAST INSTRUCTION is not a Return gets one
+    /// appended, whatever the operand bytes of that last instruction look like. The body is
+    /// `GetLocal <slot>` / `Call <argc>` with a symbolic operand byte (every value, including the one that
+    /// equals the Return opcode); afterwards the code must extend beyond the body and end in Return -
+    /// otherwise execution falls off the end of the function's code.
+    fn body_ends_in_return_case(opcode: OpCode) {
+        let op = opcode as u8;
+        let mut vm = bare_vm();
+        let mut scanner = Scanner::from_source(String::new());
+        let mut path = Placed::new(ObjString::new(Gc::dangling(), "m", 1));
+        let mut chunk = chunk_with_code(0);
+        unsafe { KANI_CHUNK = &mut chunk as *mut Chunk; }
+        let mut parser = bare_parser(&mut vm, &mut scanner, path.gc());
+        let operand: u8 = kani::any();
+        parser.emit_byte(op);
+        parser.emit_byte(operand);
+        let body_len = chunk.code.len();
+        let _ = parser.finalise_compiler();
+        let n = chunk.code.len();
+        kani::cover!(operand == OpCode::Return as u8, "reach-operand-equals-return-opcode");
+        assert!(body_len == 2, "body is one two-byte instruction");
+        assert!(n > body_len, "code continues after a body that does not end in a Return instruction");
+        assert!(chunk.code[n - 1] == OpCode::Return as u8, "and ends in Return");
+        assert!(chunk.code[0] == op && chunk.code[1] == operand, "the body is left intact");
+        std::mem::forget(parser);
+        std::mem::forget(vm);
+        std::mem::forget(chunk);
+    }
+
+    #[kani::proof]
+    #[kani::unwind(10)]
+    #[kani::stub(std::collections::hash_map::RandomState::new, random_state_stub)]
+    #[kani::stub(std::fmt::format, fmt_stub)]
+    #[kani::stub(std::fmt::write, fmt_write_stub)]
+    #[kani::stub(Parser::chunk, Parser::chunk_stub)]
+    #[kani::stub(<crate::value::Value as crate::memory::GcManaged>::mark, crate::verif_stubs::value_mark_stub)]
+    #[kani::stub(<crate::value::Value as crate::memory::GcManaged>::blacken, crate::verif_stubs::value_blacken_stub)]
+    fn c04_function_body_always_ends_in_return() {
+        body_ends_in_return_case(OpCode::GetLocal);
+        kani::cover!(true, "reach-end");
+    }
+
     /// Compiler::add_upvalue with the table pre-filled to N distinct captures (N = 255, 256) and a
     /// symbolic (index, is_local): existing capture => its own index (dedup); new capture => appended while
     /// fewer than 256, rejected at 256; a returned index always round-trips through u8.
